@@ -1217,7 +1217,19 @@ def entails(valuation: dict, op, a: Lin, b: Lin, box=4, integer=True):
             l = _LIN_REGISTRY.get(k)
             if l is not None:
                 cons.append((l, sgn))
-    atoms = sorted({x for l, _ in cons for x in l.terms} | set(d.terms))
+    # only the constraints connected (through shared atoms) with the claim can matter; the others are satisfiable
+    # on their own (the valuation is feasible), so they are dropped
+    rel = set(d.terms)
+    grew = True
+    while grew:
+        grew = False
+        for l, _ in cons:
+            t = set(l.terms)
+            if t & rel and not t <= rel:
+                rel |= t
+                grew = True
+    cons = [(l, sg) for l, sg in cons if set(l.terms) & rel]
+    atoms = sorted(rel)
     if len(atoms) > 6:
         return None
     from math import lcm
